@@ -100,6 +100,7 @@ class C17(vlib.Check):
                     f["cnt"] = [[i, v if int(Fraction(v)) <= 255 else "255"] for i, v in f["cnt"]]
             self.count("mixed-batch:first-" + kinds[0])
             yield {"t": "mixedadd", "dbkind": dbkind, "fps": fps, "split": rng.random() < 0.3}
+        yield from self.gen_convtwice()
         from harness import molgen as MG
         refs = MG.all_refs()
         for _ in range(30 if self.tier == "quick" else 500):
@@ -134,7 +135,7 @@ class C17(vlib.Check):
 
     def impl(self, case):
         t = case["t"]
-        if t in ("vecview", "dbfoldkind", "mixedadd"):
+        if t in ("vecview", "dbfoldkind", "mixedadd", "convtwice"):
             return {"res": {"ok": "see prop"}}
         if t == "fprinter":
             return {"res": attempt(lambda: self._pair(case))}
@@ -156,7 +157,7 @@ class C17(vlib.Check):
 
     def model_ops(self, case):
         t = case["t"]
-        if t in ("vecview", "dbfoldkind", "mixedadd"):
+        if t in ("vecview", "dbfoldkind", "mixedadd", "convtwice"):
             return [{"op": "fpr.hash", "words": []}]
         if t == "fprinter":
             from harness import molgen as MG
@@ -174,7 +175,7 @@ class C17(vlib.Check):
 
     def model_answer(self, case, answers):
         t = case["t"]
-        if t in ("vecview", "dbfoldkind", "mixedadd"):
+        if t in ("vecview", "dbfoldkind", "mixedadd", "convtwice"):
             return {"res": {"ok": "see prop"}}
         if t == "fprinter":
             if "ok" not in answers[0]:
@@ -221,8 +222,69 @@ class C17(vlib.Check):
                     return {"key": "conv-values:%s->%s:%s" % (src["kind"], to, where), "what": "value at %d is %s, expected %s" % (i, vout.get(i), want)}
         return None
 
+    def gen_convtwice(self):
+        """a database converted to another kind twice, with something done in between to the first result (rows added to it, a column
+        set on it) or to the source (rows added, its stored values rescaled in place through `array.data`): the second conversion is
+        the conversion of the source as it is then, and an object of its own"""
+        import random
+        rng = random.Random(self.seed * 7919 + 17)         # (own stream: the cases above keep theirs)
+        for k in range(12 if self.tier == "quick" else 200):
+            src = ["count", "float", "bit", "count"][k % 4]
+            dst = rng.choice([x for x in KINDS if x != src])
+            bits = rng.choice([64, 1024, 2 ** 32])
+            fps = []
+            for _ in range(rng.randint(2, 5)):
+                f = gen_fp(rng, src, bits, level=5, maxn=6)
+                if src != "bit":
+                    f["cnt"] = [[i, str(1 + (int(Fraction(v)) % 50))] for i, v in f["cnt"]]
+                fps.append(f)
+            extra = gen_fp(rng, src, bits, level=5, maxn=6)
+            if src != "bit":
+                extra["cnt"] = [[i, str(1 + (int(Fraction(v)) % 50))] for i, v in extra["cnt"]]
+            self.count("converted-twice")
+            yield {"t": "convtwice", "src": src, "dst": dst, "fps": fps, "extra": extra,
+                   "between": ["extend-result", "scale-source", "extend-source", "setprop-result", "extend-result"][k % 5] if src != "bit" or k % 5 != 1 else "extend-result"}
+
+    def _prop_convtwice(self, case):
+        src, dst = case["src"], case["dst"]
+        db = FingerprintDatabase(fp_type=CLS[src], level=5)
+        db.add_fingerprints([make_fp(f) for f in case["fps"]])
+        rows = [dict(({j: Fraction(1) for j in f["idx"]} if src == "bit" else {j: Fraction(v) for j, v in f["cnt"]})) for f in case["fps"]]
+        try:
+            d1 = db.as_type(CLS[dst])
+            n1 = len(d1)
+            b = case["between"]
+            if b == "extend-result":
+                d1.add_fingerprints([CLS[dst].from_fingerprint(make_fp(case["extra"]))])
+            elif b == "setprop-result":
+                d1.set_prop("tag", list(range(len(d1))))
+            elif b == "extend-source":
+                db.add_fingerprints([make_fp(case["extra"])])
+                e = case["extra"]
+                rows.append({j: Fraction(1) for j in e["idx"]} if src == "bit" else {j: Fraction(v) for j, v in e["cnt"]})
+            else:
+                db.array.data *= 2
+                rows = [{j: 2 * v for j, v in r.items()} for r in rows]
+            d2 = db.as_type(CLS[dst])
+        except Exception as e:  # noqa: BLE001
+            return {"key": "dbconv-raises:twice:" + type(e).__name__, "what": "as_type twice (%s -> %s, %s in between) raised %r" % (src, dst, case["between"], e)}
+        if d2 is d1:
+            return {"key": "dbconv-returns-earlier-result:%s" % case["between"], "what": "the second as_type(%s) returned the very database the first one handed out" % dst}
+        if len(d2) != len(rows):
+            return {"key": "dbconv-rows:twice:%s" % case["between"], "what": "second conversion %s -> %s after %s has %d rows, the source has %d" % (src, dst, case["between"], len(d2), len(rows))}
+        for i, r in enumerate(rows):
+            want = {j: (Fraction(1) if dst == "bit" else v) for j, v in r.items()}
+            row = d2.array[i].tocsr()
+            got = {int(c): Fraction(float(x)) for c, x in zip(row.indices.tolist(), row.data.tolist()) if x != 0}
+            if got != want:
+                return {"key": "dbconv-values:twice:%s" % case["between"],
+                        "what": "row %d of the second conversion %s -> %s (%s in between) stores %s, the source row is %s" % (i, src, dst, case["between"], sorted(got.items())[:4], sorted(r.items())[:4])}
+        return None
+
     def prop(self, case):
         t = case["t"]
+        if t == "convtwice":
+            return self._prop_convtwice(case)
         if t == "mixedadd":
             db = FingerprintDatabase(fp_type=CLS[case["dbkind"]], level=5)
             objs = [make_fp(f) for f in case["fps"]]
@@ -351,7 +413,7 @@ class C17(vlib.Check):
     def nontrivial(self, case, a_impl):
         if case["t"] == "fprinter":
             return vlib.canon(case) if a_impl.get("res", {}).get("ok") else None
-        if case["t"] in ("vecview", "dbfoldkind", "mixedadd"):
+        if case["t"] in ("vecview", "dbfoldkind", "mixedadd", "convtwice"):
             return vlib.canon(case)
         src = case.get("fp") or case.get("a") or (case["fps"][0]["fp"] if case.get("fps") else None)
         if src and src["idx"]:
